@@ -428,22 +428,77 @@ def run_history(sysm, history):
     return found, snap, model
 
 
+def _warm_neighbours(sysm, history, cap=300):
+    """what a search worker had done before it met the recorded state: expand (and check) the states along the history"""
+    hist = [unjson(e) for e in history]
+    try:
+        snap, model = sysm.initial()[hist[0][1]]
+        for ev in hist[1:] + [None]:
+            for k, e2 in enumerate(sysm.events(snap, model)):
+                if k >= cap:
+                    break
+                try:
+                    st = sysm.step(snap, model, e2)
+                    if st.snap is not None:
+                        sysm.state_check(st.snap, st.model)
+                except Exception:  # noqa
+                    pass
+            if ev is None:
+                break
+            st = sysm.step(snap, model, ev)
+            if st.snap is None:
+                break
+            snap, model = st.snap, st.model
+    except Exception:  # noqa
+        pass
+
+
 def replay_doc(make_sys, doc):
     """generic replay of a BFS violation: twice (determinism), True iff the recorded check fails again"""
+    if _replay_doc(make_sys, doc, False):
+        return True
+    # not reproduced from the bare history: a defect that lives in process-wide state (a class-level dict, a module-level memo) was
+    # observed by a worker that had examined the neighbouring states first; give the replay the same past and try once more
+    return _replay_doc(make_sys, doc, True)
+
+
+def _replay_doc(make_sys, doc, neighbours):
     outcomes = []
-    # a warm-up pass first: a defect that lives in process-wide state (a class-level dict, a module-level memo) was observed
-    # in a worker that had already examined other states; the warm-up gives the two recorded passes the same kind of past
+    if neighbours:
+        # the recorded state is checked right after its neighbours were (re-checking the states along the history in between
+        # would overwrite what the neighbours left behind in the process)
+        for _ in range(2):
+            sysm = make_sys()
+            _, snap, model = run_history(sysm, doc["history"])
+            if snap is None:
+                return False
+            _warm_neighbours(sysm, doc["history"])
+            outcomes.append([v["check"] for v in sysm.state_check(snap, model)])
+        if outcomes[0] != outcomes[1]:
+            raise HarnessError("replay is not deterministic")
+        print("replayed state after its neighbours; failing checks:", sorted(set(outcomes[0])))
+        return doc["check"] in outcomes[0]
+    # a warm-up pass first: the two recorded passes then start from the same kind of past
     run_history(make_sys(), doc["history"])
     for _ in range(2):
         sysm = make_sys()
         found, snap, model = run_history(sysm, doc["history"])
-        if doc["check"] == "long_lived_object_diverges" and snap is not None and hasattr(sysm, "live_new"):
+        if hasattr(sysm, "live_new") and (doc["check"] == "long_lived_object_diverges" or doc["check"] not in found):
+            # the same history on ONE long-lived object, observed after every step exactly as the replay validation of the search does
+            # (the observations are part of the history: a defect may live in what a read leaves behind in the object)
             hist = [unjson(e) for e in doc["history"]]
-            live = sysm.live_new(hist[0][1])
-            for ev in hist[1:]:
-                sysm.live_apply(live, ev)
-            if sysm.live_canon(live) != sysm.canon(snap):
-                found.append("long_lived_object_diverges")
+            try:
+                live = sysm.live_new(hist[0][1])
+                for ev in hist[1:]:
+                    sysm.live_apply(live, ev)
+                    if hasattr(sysm, "live_check"):
+                        found += [v["check"] for v in sysm.live_check(live)]
+                if snap is not None and sysm.live_canon(live) != sysm.canon(snap):
+                    found.append("long_lived_object_diverges")
+            except Exception as e:  # noqa
+                if snap is not None:
+                    found.append("long_lived_object_diverges")
+                print("  (live replay raised %s)" % type(e).__name__)
         if doc["check"] == "model_merge" and snap is not None:
             other = (doc.get("detail") or {}).get("other_hist")
             if other:
